@@ -1,5 +1,7 @@
 SPECIFICATION TraceSpec
 CONSTANTS
+  CodeUnanchored = FALSE
+  CodeNoRange = FALSE
   Zones = {"UTC", "Asia/Kolkata", "America/New_York"}
   AllowTs = TRUE
 INVARIANT Verdicts
